@@ -2,6 +2,6 @@
 # Development QA: re-run checks against filed seeded changes (scratch copies only) and refresh seeded/<name>/meta.json.
 #   tools/seedrun.sh C07_m3 C08_m1 ...        (no arguments: all of seeded/)      env: P=<parallel jobs, default 4>  SUITE=1 to re-run the baseline suite too
 cd "$(dirname "$0")/.."
-names="$@"; [ -z "$names" ] && names=$(ls seeded)
+names="$@"; [ -z "$names" ] && names=$(cd seeded && ls -d C*_m*)
 for n in $names; do echo "${n%%_*} $n seeded/$n/patch.diff seeded/$n/demo.py $([ -z "$SUITE" ] && echo --skip-suite)"; done | xargs -P ${P:-4} -L 1 tools/seedtest.py > /tmp/mut/seedrun_$$.log 2>&1
 for n in $names; do tools/seedimport.py $n; done
